@@ -91,6 +91,21 @@ Proof.
 Qed.
 Print Assumptions T07_included_intercepted.
 
+(* Which name does mitm-domains judge when the SNI differs from the CONNECT host?  The CONNECT host only
+   (req.URL.Hostname()).  A CONNECT to an included host whose ClientHello names an EXCLUDED host is intercepted
+   and the leaf is minted for that excluded name; a CONNECT to an excluded host is tunnelled whatever the SNI
+   will be (T07_excluded_tunnelled does not mention the SNI).  This is what the code does; whether the list
+   should also judge the SNI is a policy question the property does not decide. *)
+Theorem T07_filter_judges_connect_host : forall f authority sni,
+  f (url_hostname authority) = true -> f sni = false -> sni <> [] -> has_byte COLON sni = false ->
+  connect_events true (Some f) authority 22 = [EvWrite200; EvPeek; EvTlsServer authority] /\
+  name_for sni authority = sni.
+Proof.
+  exact (fun f authority sni => filter_judges_connect_host f authority sni ob_mitm_filter_uses_url_hostname
+           ob_connect_checks_mitm_before_dial ob_mitm_tls_only_on_handshake_byte ob_cert_strips_port ob_tls_for_host_sni_first).
+Qed.
+Print Assumptions T07_filter_judges_connect_host.
+
 (* Every request read from a TLS session terminated by handleMITM -- origin-form or absolute-form,
    whatever X-Forwarded-Proto says -- is made with scheme https on the single configured Transport:
    it reaches the origin inside TLS iff the origin's certificate verifies (or --insecure), else
